@@ -146,6 +146,9 @@ func casesC14(g *Gen) []*Case {
 	{
 		bad := gvMap("b", &GV{K: "O", Other: "chan"}, "a", &GV{K: "O", Other: "func"}, "c", &GV{K: "O", Other: "complex"}, "loop", gvInt(1))
 		addRepeated("several_bad_data_values", newTree(), nil, opEvs("x", bad), "EvaluateString with several unsupported data values")
+		for _, kind := range []string{"intkeymap", "boolkeymap", "mixedkeymap", "floatkeymap"} {
+			addRepeated("maps_with_other_keys", newTree(), nil, opEvs("{{ m }}|@dump(m)", gvMap("m", &GV{K: "O", Other: kind})), "printing a "+kind)
+		}
 	}
 	// several simultaneous load faults
 	{
